@@ -490,6 +490,7 @@ impl JoinReorder {
                 let qualified = format!("{}.{}", rel.name, col);
                 column_to_relation.entry(qualified).or_default().push(idx);
             }
+            Self::register_field_qualifiers(idx, rel, &mut column_to_relation);
         }
 
         // Build join edges from conditions
@@ -1302,6 +1303,7 @@ impl JoinReorder {
                 let qualified = format!("{}.{}", rel.name, col);
                 column_to_relation.entry(qualified).or_default().push(idx);
             }
+            Self::register_field_qualifiers(idx, rel, &mut column_to_relation);
         }
 
         // Step 3: Build join edges from conditions
@@ -1570,6 +1572,32 @@ impl JoinReorder {
             });
         }
         Ok(plan)
+    }
+
+    /// Also map `qualifier.column` as the relation's OWN schema spells it.
+    ///
+    /// A relation is not always named after its qualifier: a `Project` (e.g.
+    /// the one ProjectionPushdown puts over a filtered scan) is named
+    /// "project", a filtered opaque input "relation". Its fields keep their
+    /// qualifiers (`r2.k`), and so do the join conditions that reference them.
+    /// Without this entry those conditions resolve to no relation, stop being
+    /// join edges on the next fixpoint iteration, and the enumerator
+    /// manufactures a CROSS join in a connected join graph.
+    fn register_field_qualifiers(
+        idx: usize,
+        rel: &JoinRelation,
+        column_to_relation: &mut HashMap<String, Vec<usize>>,
+    ) {
+        for field in rel.plan.schema().fields() {
+            if let Some(qualifier) = &field.relation {
+                let entry = column_to_relation
+                    .entry(format!("{}.{}", qualifier, field.name))
+                    .or_default();
+                if !entry.contains(&idx) {
+                    entry.push(idx);
+                }
+            }
+        }
     }
 
     /// Collect all base relations and join conditions from a join tree
